@@ -101,6 +101,9 @@ def family_edges(rng, fam, nmax, dense_max=10):
     if fam == 'complete':
         n = 2 * rng.randint(1, min(8, dense_max, nmax) // 2)
         return n, list(itertools.combinations(range(n), 2))
+    if fam == 'complete-big':       # only for histories that cross the 64-edge mark on one object (K12 has 66 edges)
+        n = 2 * rng.randint(max(1, min(5, nmax // 2)), max(1, min(dense_max, nmax) // 2))
+        return n, list(itertools.combinations(range(n), 2))
     if fam == 'union':              # two components
         f1, f2 = rng.choice(FAMILIES[:6]), rng.choice(FAMILIES[:6])
         n1, e1 = family_edges(rng, f1, max(4, nmax // 2), dense_max)
@@ -133,6 +136,113 @@ def structured_graph(rng, nmax, dense_max=10):
             w = rng.choice(ALPHABETS[an]) + shift
         ops.append((a, b, w))
     return fam, an, n, ops
+
+
+# ------------------------------------------------------------------------------------------------------------------
+# DENSE-LARGE graphs: complete and complete bipartite graphs with 60 - 190 edges (12 - 20 nodes), optionally minus a few
+# edges, over EVERY weight source the harness knows plus sign-structured ones (all negative, negated non-negative weights
+# as used for maximum-weight matching, a few strongly negative edges among positive ones, one barely negative edge, a
+# non-negative assignment shifted below zero, mixed-sign floats).  Sizes beyond what exhaustive enumeration on 4-10 nodes
+# reaches, so that behaviour that depends on the NUMBER OF EDGES (pruning, batching, backend choice, scaling) is exercised
+# for every sign pattern.  All weights are ints or dyadic floats whose sums are exact doubles.
+DENSE_SHAPES = (('K12', 30), ('K12-minus', 12), ('K14', 12), ('K14-minus', 6), ('K8,8', 10), ('K8,8-minus', 5), ('K16', 8),
+                ('K16-minus', 3), ('K9,9', 6), ('K9,9-minus', 2), ('K18', 3), ('K10,10', 2), ('K20', 1))
+DENSE_KINDS = ('all-negative-int', 'negated-nonneg-int', 'negated-nonneg-float', 'few-strong-negative', 'one-negative',
+               'shifted-below-zero', 'mixed-sign-float', 'mixed-sign-wide-int', 'nonneg-int')
+# measured cost (seconds) of one `mcheck` of the extracted engine (memoised checker, Decoders/MatchingMemo.v); the plain
+# constant-space recursion (`fcheck`, Decoders/MatchingMin.v) costs 0.1 s on K12, 1.5 s on K14, 25 s on K16
+DENSE_ENGINE_COST = {'K12': 0.01, 'K14': 0.03, 'K8,8': 0.02, 'K16': 0.15, 'K9,9': 0.08, 'K18': 0.4, 'K10,10': 0.3, 'K20': 1.6}
+
+
+def dense_edges(rng, shape):
+    base, _, minus = shape.partition('-')
+    if ',' in base:
+        k = int(base[1:].split(',')[0])
+        n, e = 2 * k, [(i, k + j) for i in range(k) for j in range(k)]
+    else:
+        n = int(base[1:])
+        e = list(itertools.combinations(range(n), 2))
+    if minus:
+        drop = set(rng.sample(range(len(e)), rng.randint(1, 6)))
+        e = [x for i, x in enumerate(e) if i not in drop]
+    return n, e
+
+
+def dense_weights(rng, kind, m):
+    """m weights of one sign-structured kind"""
+    if kind == 'all-negative-int':
+        return [rng.randint(-20, -1) for _ in range(m)]
+    if kind == 'negated-nonneg-int':          # maximum-weight perfect matching through the minimum-weight entry point
+        return [-rng.randint(0, 20) for _ in range(m)]
+    if kind == 'negated-nonneg-float':
+        return [-(rng.randint(0, 160) / 8.0) for _ in range(m)]
+    if kind == 'few-strong-negative':
+        ws = [rng.randint(1, 20) for _ in range(m)]
+        for i in rng.sample(range(m), rng.randint(1, 6)):
+            ws[i] = -rng.randint(5, 15)
+        return ws
+    if kind == 'one-negative':                # the least negativity there is: one edge at -1 (or -1/8) among positives
+        ws = [rng.choice([rng.randint(1, 9), rng.randint(1, 72) / 8.0]) for _ in range(m)]
+        ws[rng.randrange(m)] = rng.choice([-1, -0.125, -9])
+        return ws
+    if kind == 'shifted-below-zero':          # a non-negative assignment moved down by a constant
+        c = rng.choice([5, 10, 25])
+        return [rng.randint(0, 9) - c for _ in range(m)]
+    if kind == 'mixed-sign-float':
+        return [rng.randint(-80, 80) / 8.0 for _ in range(m)]
+    if kind == 'mixed-sign-wide-int':
+        return [rng.choice([-1, 1]) * rng.choice([0, 1, 2, 3, 50, 1000, 10 ** 6]) for _ in range(m)]
+    return [rng.randint(0, 12) for _ in range(m)]
+
+
+def dense_graph(rng, make_weight, weight_kinds):
+    """one dense-large graph: (shape, weight-source name, n, ops [(a, b, w)]); nodes relabelled, orientation random,
+    natural or shuffled insertion order, sometimes a few edges re-inserted (reversed or not) with a new weight"""
+    shape = rng.choices([s for s, _ in DENSE_SHAPES], [k for _, k in DENSE_SHAPES])[0]
+    n, edges = dense_edges(rng, shape)
+    m = len(edges)
+    r = rng.random()
+    if r < 0.3:
+        an = rng.choice(ALPHABET_NAMES)
+        shift = rng.choice([0, 0, 0, 1, -1, 7, -7])
+        ws = [rng.choice(ALPHABETS[an]) + shift for _ in range(m)]
+        draw = lambda: rng.choice(ALPHABETS[an]) + shift      # noqa
+        wname = 'alphabet:' + an
+    elif r < 0.55:
+        wk = rng.choice(weight_kinds)
+        ws = [make_weight(rng, wk) for _ in range(m)]
+        draw = lambda: make_weight(rng, wk)                    # noqa
+        wname = 'kind:' + wk
+    else:
+        dk = rng.choice(DENSE_KINDS)
+        ws = dense_weights(rng, dk, m)
+        draw = lambda: dense_weights(rng, dk, 1)[0]            # noqa
+        wname = dk
+    perm = list(range(n))
+    if rng.random() < 0.7:
+        rng.shuffle(perm)
+    order = list(range(m))
+    if rng.random() < 0.5:
+        rng.shuffle(order)
+    ops = []
+    for i in order:
+        a, b = perm[edges[i][0]], perm[edges[i][1]]
+        if rng.random() < 0.5:
+            a, b = b, a
+        ops.append((a, b, ws[i]))
+    if rng.random() < 0.3:
+        for _ in range(rng.randint(1, 4)):
+            a, b, w = rng.choice(ops)
+            if rng.random() < 0.7:
+                a, b = b, a
+            if wname == 'few-strong-negative':
+                w = -rng.randint(5, 15)
+            elif wname == 'one-negative':
+                pass                                          # same weight, other orientation
+            else:
+                w = draw()
+            ops.append((a, b, w))
+    return shape, wname, n, ops
 
 
 # ------------------------------------------------------------------------------------------------------------------
@@ -292,7 +402,7 @@ def _orient(run, a, b):
     return a, b
 
 
-def gen_history(gt, objs, seed, make_weight, weight_kinds, nmax, direct_eval):
+def gen_history(gt, objs, seed, make_weight, weight_kinds, nmax, direct_eval, dense_max=8):
     """generate and execute one history (the generator looks at the real object only to choose the next operation)"""
     rng = random.Random(seed)
     run = HistRunner(gt, objs)
@@ -341,7 +451,9 @@ def gen_history(gt, objs, seed, make_weight, weight_kinds, nmax, direct_eval):
     def fill():
         fam = rng.choice(('cycle', 'ladder', 'grid', 'knn', 'complete', 'complete', 'pruned', 'prism', 'cycle-chord',
                           'knn-minus', 'tree-pm', 'path'))
-        n, edges = family_edges(rng, fam, min(nmax, npool), dense_max=min(8, nmax))
+        if dense_max > 8 and rng.random() < 0.6:
+            fam = 'complete-big'
+        n, edges = family_edges(rng, fam, min(nmax, npool), dense_max=min(dense_max, nmax))
         sub = rng.sample(range(npool), n)
         wf = weights()
         edges = list(edges)
